@@ -510,6 +510,10 @@ RunResult run_c15(const RunSpec &spec) {
             if (mode == 0 && !a.stopped) {
                 if (!out.cif) DVIOLATE("stored", "no_cif", "no CIF was produced");
                 MCif got = dump_cif(out.cif, prop), want = expected_model(a.stored);
+                // a loop all of whose packets were bypassed has no content to store: a parse that ran to completion leaves no packet-less
+                // loop behind, in a data block or in a save frame (the data model does not allow one; cif_walk / cif_write reject it)
+                std::function<const MCont *(const MCont &)> hollow = [&](const MCont &c) -> const MCont * { for (auto &l : c.loops) if (l.packets.empty()) return &c; for (auto &f : c.frames) if (const MCont *h = hollow(f)) return h; return NULL; };
+                if (out.rc == CIF_OK) for (auto &bk : got.blocks) if (const MCont *h = hollow(bk)) DVIOLATE("stored", "empty_loop_left", "the parse ran to completion but left a loop without packets in container %s (every packet of it was bypassed by the handlers)", u8(h->code_orig).c_str());
                 DumpOpts dop; dop.drop_empty_loops = true;
                 std::string x = canon(want, dop), y = canon(got, dop);
                 if (x != y && a.saw_item_cut) {
@@ -569,7 +573,9 @@ RunResult run_c11(const RunSpec &spec) {
     if (enc == 5) mid_bom = false;           // U+FEFF has no ISO-8859-1 encoding
     if (spec.mods.default_env) envc = 0;
     ustr t;
-    if (magic == 1) t += U("#\\#CIF_1.1\n"); else if (magic == 2) t += U("#\\#CIF_1.0\n"); else if (magic == 3) t += U("#\\#CIF_2.0\n"); else if (magic == 4) t += U("# first line\n#\\#CIF_2.0\n");
+    // what follows the version code on its line: nothing, blanks / tabs (the code is recognised all the same), or CR LF
+    static const char *const TAIL[] = { "\n", "\n", " \n", "\t\n", "  \t \n", "\r\n", " \r\n" }; ustr tail = U(TAIL[r.below(7)]);
+    if (magic == 1) t += U("#\\#CIF_1.1") + tail; else if (magic == 2) t += U("#\\#CIF_1.0") + tail; else if (magic == 3) t += U("#\\#CIF_2.0") + tail; else if (magic == 4) t += U("# first line\n#\\#CIF_2.0") + tail;
     ustr eacute; eacute += (char16_t) 0xe9;
     t += U("data_d\n_q '''x y'''\n_n '") + eacute + U("'\n");
     if (mid_bom) { t += U("# a byte-order mark in the middle: "); t += (char16_t) 0xfeff; t += U("\n"); }
